@@ -1,5 +1,6 @@
 import Norad.Model.FontSave
 import Norad.Lemmas.FontSave
+import Norad.Lemmas.Inplace
 /-!
 # C08 — save validates before it destroys; saving in place keeps lazy data
 
@@ -8,7 +9,7 @@ All theorems hold for every content type, every `render`, every entry validator,
 file system and every target path.
 -/
 namespace C08
-open AbsFS FontSave
+open AbsFS FontSave FontLoad
 
 variable {β : Type}
 
@@ -94,7 +95,100 @@ theorem refused_save_leaves_fs_fontinfo_counterexample :
     lookup (saveImpl cfgN angleFont precious ["t".toList]).2 ["t".toList, "precious".toList] = none := by
   decide
 
+
+/-! ### saving in place keeps the lazy store data -/
+
+/-- **In-place save.**  Load a font from `t` (everything requested), then save it onto `t`: if the save succeeds,
+    every plain file below `t/data` and `t/images` holds afterwards the bytes it held before — although every
+    cell of both stores was `notLoaded` when the save started (first conjunct).  It is step 5 that reads them
+    before the wipe; without it the statement is false (`inplace_save_without_step5_counterexample`).
+    `WF`: every ancestor of an existing path is a directory (a property of real file systems that the
+    association-list representation does not enforce by itself). -/
+theorem inplace_save_keeps_store_files (P : Parser β) (cfg : Cfg β) (fs fs' : FS β) (t : APath) (f : AFont β)
+    (hwf : WF fs) (hload : loadImpl P fs t Request.everything = .ok f)
+    (hsave : saveImpl cfg f fs t = (none, fs')) :
+    (∀ kind, ∀ kc ∈ (f.store kind).items, kc.2 = Cell.notLoaded) ∧
+    ∀ (kind : StoreKind) (rel : APath) (b : β), rel ≠ [] →
+      lookup fs (storePath t kind rel) = some (.file b) →
+      lookup fs' (storePath t kind rel) = some (.file b) := by
+  obtain ⟨hld, hli⟩ := loadImpl_stores hload
+  constructor
+  · intro kind kc hkc
+    cases kind with
+    | data => exact ((loadStore_keys_shape hld).2 kc hkc).1
+    | images => exact ((loadStore_keys_shape hli).2 kc hkc).1
+  · intro kind rel b hrel hfile
+    have hp0 : storePath t kind rel ≠ [] := by simp [storePath]
+    have hdirs : ∀ m, m <+: t ++ [(storeDirName kind).toList] → m ≠ [] → isDir fs m = true := by
+      intro m hm _
+      apply hwf (storePath t kind rel) (by simp [hfile]) m (hm.trans (List.prefix_append _ _))
+      intro e
+      have h1 := hm.length_le
+      have h2 : 0 < rel.length := List.length_pos_iff.mpr hrel
+      rw [e] at h1
+      simp only [storePath, List.length_append, List.length_cons, List.length_nil] at h1
+      omega
+    obtain ⟨hex, _⟩ := existsAt_of_dirs (by simp) hdirs
+    have hmemL := listBelow_mem_file hrel hfile
+    have hnode : node fs (storePath t kind rel) = some (.file b) := by
+      rw [node_of_ne_nil _ hp0]; exact hfile
+    cases kind with
+    | data =>
+      have hspec := loadStore_spec (kind := .data) hld hex
+      exact inplace_core hld hli hsave .data rel b (hspec.2.2 rel hmemL) hnode
+    | images =>
+      have hspec := loadStore_spec (kind := .images) hli hex
+      exact inplace_core hld hli hsave .images rel b (hspec.2.2 rel hmemL) hnode
+
+/-- the model variant **without step 5**: the cells are forced only when the store files are about to be
+    written, i.e. from the tree that has just been wiped (the validators 1–4 are irrelevant here) -/
+def saveImplNoStep5 (cfg : Cfg β) (f : AFont β) (fs : FS β) (t : APath) : Option SaveErr × FS β :=
+  match wipe fs t with
+  | .error e => (some (.cleanup e), fs)
+  | .ok fs1 =>
+    match forceStore cfg .data fs1 f.data, forceStore cfg .images fs1 f.images with
+    | some d, some i => runEffs (plan cfg f d i t) fs1
+    | _, _ => (some .panic, (runEffs (plan cfg f [] [] t) fs1).2)
+
+def lazyFont : AFont Nat :=
+  { angleFont with
+    info := { body := 0, guides := [], valid := true, serialisable := true },
+    data := { root := ["t".toList], items := [(Path.parse "a".toList, .notLoaded)] } }
+
+def withData : FS Nat :=
+  [(["t".toList], .dir), (["t".toList, "data".toList], .dir), (["t".toList, "data".toList, "a".toList], .file 42)]
+
+theorem inplace_save_without_step5_counterexample :
+    lookup (saveImpl cfgN lazyFont withData ["t".toList]).2 ["t".toList, "data".toList, "a".toList] = some (.file 42) ∧
+    lookup (saveImplNoStep5 cfgN lazyFont withData ["t".toList]).2 ["t".toList, "data".toList, "a".toList] = none := by
+  decide
+
 /-! ### non-vacuity -/
+
+def parserN : Parser Nat where
+  metainfo _ := some (3, 1)
+  lib _ := none
+  fontinfo _ := none
+  groups _ := none
+  kerning _ := none
+  features _ := none
+  layercontents _ := some [("public.default".toList, "glyphs".toList)]
+  contents _ := some []
+  layerinfo _ := none
+  glif _ := none
+
+def ufo : FS Nat :=
+  [(["t".toList], .dir), (["t".toList, "metainfo.plist".toList], .file 0),
+   (["t".toList, "layercontents.plist".toList], .file 0), (["t".toList, "glyphs".toList], .dir),
+   (["t".toList, "glyphs".toList, "contents.plist".toList], .file 0),
+   (["t".toList, "data".toList], .dir), (["t".toList, "data".toList, "a".toList], .file 42)]
+
+/-- the hypotheses of the in-place theorem are satisfiable: this tree loads, and the loaded font saves onto it -/
+example : ∃ f, loadImpl parserN ufo ["t".toList] Request.everything = .ok f ∧
+    (saveImpl cfgN f ufo ["t".toList]).1 = none ∧
+    lookup (saveImpl cfgN f ufo ["t".toList]).2 ["t".toList, "data".toList, "a".toList] = some (.file 42) :=
+  ⟨_, rfl, by decide, by decide⟩
+
 
 example : ∃ k, saveImpl cfgN { angleFont with version := 2 } precious ["t".toList] = (some (.refused k), precious) :=
   ⟨_, refused_save_leaves_fs_version _ _ _ _ (by decide)⟩
